@@ -30,6 +30,8 @@ impl<T: Copy + std::fmt::Debug> Block for Skip<T> {
             // Fast path, once skipping is done.
             let len = std::cmp::min(i.len(), o.len());
             o.slice()[..len].copy_from_slice(&i.slice()[..len]);
+            // Only tags of the samples actually copied.
+            let tags: Vec<_> = tags.into_iter().filter(|t| t.pos() < len).collect();
             o.produce(len, &tags);
             i.consume(len);
             return Ok(BlockRet::Again);
